@@ -4,10 +4,15 @@
   translated `dquote`; the hand model instantiates it with "some character is in the generated class
   `Gen.quotable`" (`quotableSearch`), which is what `re.search` of a one-class pattern answers and is
   compared with the real `QUOTABLE.search` every run (harness/props/C08.py, op `body_quotable`).
+  `q_split` (wave 3): a `for .. in enumerate(st)` loop with `break`, int-indexed slices `st[cursor:i]`
+  and a flag that starts as the int 0 and becomes a bool; the hand model `qSplitGo` carries the
+  current segment instead of the cursor, the invariant `cur = st[cursor:i]` connects them.
 -/
 import ICal.Gen.BodiesParser
 import ICal.Model.Params
 import ICal.Lemmas.PyStr
+import ICal.Lemmas.BodiesRT
+set_option linter.unusedSimpArgs false
 namespace ICal.Bodies
 open ICal ICal.PyRT
 
@@ -22,5 +27,80 @@ theorem dquote_eq (v : Str) : Gen.BodiesParser.dquote v quotableSearch = ICal.dq
 
 theorem q_join_eq (l : List Str) : Gen.BodiesParser.q_join l [','] quotableSearch = qJoin l := by
   simp only [Gen.BodiesParser.q_join, qJoin, dquote_eq]
+
+/-! ## `q_split` -/
+
+/-- the `maxsplit` argument of the hand model: `-1` (any negative int) never stops the loop -/
+def maxsplitOf (m : Int) : Option Nat := if m < 0 then none else some m.toNat
+
+theorem q_split_loop (st : Str) (c : Char) (m : Int) : ∀ (l pre : Str), st = pre ++ l →
+    ∀ (cursor splits : Nat) (inq : Bool) (res : List Str), cursor ≤ pre.length →
+    (Gen.BodiesParser.q_split_loop1 st [c] m (st.length : Int) (pre.length : Int) inq res (cursor : Int) (splits : Int) l).2.1 =
+      res ++ qSplitGo c (maxsplitOf m) inq splits (pre.drop cursor) l := by
+  intro l
+  induction l with
+  | nil => intro pre _ cursor splits inq res _; simp [Gen.BodiesParser.q_split_loop1, qSplitGo]
+  | cons ch rest ih =>
+    intro pre hst cursor splits inq res hc
+    have hst' : st = (pre ++ [ch]) ++ rest := by simp [hst]
+    have hlen : st.length = pre.length + 1 + rest.length := by rw [hst]; simp; omega
+    have e1 : ((pre.length : Int) + 1) = (((pre ++ [ch]).length : Nat) : Int) := by simp
+    have e2 : ((splits : Int) + 1) = ((splits + 1 : Nat) : Int) := by push_cast; rfl
+    have hsl : pySliceI st (cursor : Int) (pre.length : Int) = pre.drop cursor := by
+      rw [pySliceI_nat, hst, List.drop_append_of_le_length hc, List.take_append_of_le_length (by simp)]
+      exact List.take_of_length_le (by simp)
+    have hfrom : ∀ k, k ≤ pre.length + 1 → pySliceFromI st (k : Int) = (pre ++ [ch]).drop k ++ rest := by
+      intro k hk
+      rw [pySliceFromI_nat, hst', List.drop_append_of_le_length (by simp; omega)]
+    have hend : (((pre.length : Int) + 1 == (st.length : Int))) = rest.isEmpty := by
+      rw [hlen]; cases rest <;> simp <;> omega
+    have hms : ∀ k : Nat, ((k : Int) == m) = (maxsplitOf m == some k) := by
+      intro k
+      unfold maxsplitOf
+      by_cases hm : m < 0
+      · have : ¬ ((k : Int) = m) := by omega
+        simp [hm, this]
+      · have : ((k : Int) = m) ↔ m.toNat = k := by omega
+        simp only [hm, if_false]
+        rw [Bool.eq_iff_iff]; simp [this]
+    have hfr1 := hfrom (pre.length + 1) (Nat.le_refl _)
+    have hfr2 := hfrom cursor (by omega)
+    have ecur : ((pre.length + 1 : Nat) : Int) = (pre.length : Int) + 1 := by push_cast; rfl
+    rw [ecur] at hfr1
+    have hd1 : (pre ++ [ch]).drop (pre.length + 1) = [] := List.drop_of_length_le (by simp)
+    have hd2 : (pre ++ [ch]).drop cursor = pre.drop cursor ++ [ch] := List.drop_append_of_le_length hc
+    have ih1 := ih (pre ++ [ch]) hst' (pre.length + 1) (splits + 1) (if ch = DQ then !inq else inq) (res ++ [pre.drop cursor]) (by simp)
+    have ih2 := ih (pre ++ [ch]) hst' cursor splits (if ch = DQ then !inq else inq) res (by simp; omega)
+    rw [← e1, hd1] at ih1
+    rw [← e1, hd2] at ih2
+    rw [ecur] at ih1
+    have hsep : ([ch] == [c]) = (ch == c) := by rw [Bool.eq_iff_iff]; simp
+    have hq : (ch == '"') = (ch == DQ) := rfl
+    simp only [Gen.BodiesParser.q_split_loop1, qSplitGo, hsl, e2, hq, hsep, beq_iff_eq]
+    generalize (if ch = DQ then !inq else inq) = inq' at ih1 ih2 ⊢
+    by_cases hB : ((!inq') && ch == c) = true
+    · simp only [hB, if_true, hms, hend, hfr1, hd1, List.nil_append]
+      by_cases hS : (rest.isEmpty || maxsplitOf m == some (splits + 1)) = true
+      · simp only [hS, if_true]; simp
+      · simp only [hS, if_false, Bool.false_eq_true]; rw [ih1]; simp
+    · simp only [hB, if_false, hms, hend, hfr2, hd2, Bool.false_eq_true]
+      by_cases hS : (rest.isEmpty || maxsplitOf m == some splits) = true
+      · simp only [hS, if_true]; simp
+      · simp only [hS, if_false, Bool.false_eq_true]; rw [ih2]; simp
+
+theorem q_split_eq (st : Str) (c : Char) (m : Int) :
+    Gen.BodiesParser.q_split st [c] m = qSplit st c (maxsplitOf m) := by
+  simp only [Gen.BodiesParser.q_split, qSplit]
+  by_cases h0 : m = 0
+  · subst h0; simp [maxsplitOf]
+  · have h1 : (m == 0) = false := by simp [h0]
+    have h2 : (maxsplitOf m == some 0) = false := by
+      unfold maxsplitOf
+      by_cases hm : m < 0
+      · simp [hm]
+      · simp [hm]; omega
+    simp only [h1, h2, Bool.false_eq_true, if_false]
+    have := q_split_loop st c m st [] (by simp) 0 0 false [] (by simp)
+    simpa [strLen_eq] using this
 
 end ICal.Bodies
